@@ -744,6 +744,11 @@ func (e *Enc) builtin(ins ssa.Instruction, b *ssa.Builtin, c *ssa.CallCommon, re
 		}
 		set(n)
 	case "delete":
+		// removes an entry: the map contents change (conservatively: every map fact is forgotten)
+		e.globalMapWriteCheck(c.Args[0], ins.Pos())
+		e.lockCheckMap(c.Args[0], true, ins.Pos())
+		e.heapSort["$s:map"] = "Int"
+		h.m["$s:map"] = e.fresh("mapver", "Int")
 	case "print", "println":
 	case "min", "max":
 		op := "<="
